@@ -116,7 +116,7 @@ func main() {
 	}
 	// every hand-over mode at every chunk-boundary length
 	for _, l := range [][]string{{"X1"}, {"E1"}, {"X2", "R1"}} {
-		for _, n := range []int{0, 1, 65535, 65536, 65537, 131072, 196608} {
+		for _, n := range []int{0, 1, 65535, 65536, 65537, 131072, 150001, 196608} {
 			for _, via := range ax.Vias {
 				for _, arm := range []bool{false, true} {
 					cases = append(cases, encCase{list: l, length: n, armored: arm, via: via})
